@@ -77,3 +77,42 @@ def enclosing_stmt(node: ast.AST, pm) -> ast.stmt | None:
 
 def stmt_key(f: Func, node: ast.AST) -> str:
     return f"{f.qualname}|{norm(node)[:160]}"
+
+
+def guard_facts(node: ast.AST, pm) -> frozenset:
+    """(atom, bool) facts implied by the conditional expressions and if-statements lexically enclosing node.
+    Only single-leaf tests (and 'and' chains on the true side / 'or' chains on the false side) contribute."""
+    from .dataflow import atom_of
+    facts = set()
+
+    def add(test, val: bool):
+        if isinstance(test, ast.BoolOp):
+            if isinstance(test.op, ast.And) and val:
+                for v in test.values:
+                    add(v, True)
+            elif isinstance(test.op, ast.Or) and not val:
+                for v in test.values:
+                    add(v, False)
+            return
+        if isinstance(test, ast.UnaryOp) and isinstance(test.op, ast.Not):
+            add(test.operand, not val)
+            return
+        a, pol = atom_of(test)
+        facts.add((a, pol if val else not pol))
+
+    child = node
+    cur = pm.get(id(node))
+    while cur is not None:
+        if isinstance(cur, ast.IfExp):
+            if child is cur.body:
+                add(cur.test, True)
+            elif child is cur.orelse:
+                add(cur.test, False)
+        elif isinstance(cur, ast.If):
+            if any(child is st for st in cur.body):
+                add(cur.test, True)
+            elif any(child is st for st in cur.orelse):
+                add(cur.test, False)
+        child = cur
+        cur = pm.get(id(cur))
+    return frozenset(facts)
